@@ -163,6 +163,10 @@ CASES = [
     ("m-c14-long-sign", "C14", "fire", "xdis/marsh.py", "        sign = 1\n        if size < 0:\n            sign = -1\n            size = -size\n        x = 0\n        for i in range(size):\n            d = _r_short(self)", "        sign = 1\n        size = abs(size)\n        if size < 0:\n            sign = -1\n        x = 0\n        for i in range(size):\n            d = _r_short(self)", "long:sign"),
     ("m-c14-long-weight", "C14", "fire", "xdis/marsh.py", "            d = _r_short(self)\n            x = x | (d << (i * 15))", "            d = _r_short(self)\n            x = x | (d << (i * 16))", "long:accumulation"),
     ("s-c14-long-add", "C14", "silent", "xdis/marsh.py", "            d = _r_short(self)\n            x = x | (d << (i * 15))", "            d = _r_short(self)\n            x += d * (1 << (15 * i))", ""),
+    ("m-c12-arglist-unguarded", "C12", "fire", "xdis/opcodes/format/extended.py", "        if (\n            arglist\n            and instructions[1].opname == \"MAKE_FUNCTION\"", "        if (\n            instructions[1].opname == \"MAKE_FUNCTION\"", "arglist-index"),
+    ("m-c12-percent-eq", "C12", "fire", "xdis/opcodes/opcode_311.py", "    opname = opname.replace(\"%\", \"%%\")", "    if opname == \"%\":\n        opname = \"%%\"", "format:%="),
+    ("m-c12-bad-constant-format", "C12", "fire", "xdis/opcodes/opcode_35.py", "\"%s @= %s\"", "\"%s @= %\"", "format:"),
+    ("s-c12-arglist-len-guard", "C12", "silent", "xdis/opcodes/format/extended.py", "        if (\n            arglist\n            and instructions[1].opname == \"MAKE_FUNCTION\"", "        if (\n            len(arglist) > 0\n            and instructions[1].opname == \"MAKE_FUNCTION\"", ""),
     # ---------------- whole-package reformat, one case per property
     ("s-c01-reformat", "C01", "silent", "*REFORMAT*", "", "", ""),
     ("s-c02-reformat", "C02", "silent", "*REFORMAT*", "", "", ""),
